@@ -4,7 +4,7 @@ From Coq Require Import String.
 From Verif Require Import Base Sorter Value Seq Coll Pool PoolRun Params SetProofs AssocProofs Facade FacadeProofs ModuleLang ModuleSem ModuleFacts ModuleTactics GenModule.
 Open Scope Z_scope.
 Open Scope list_scope.
-Local Opaque class_ctor as_type fold_loop ranker rk_default set_add_all set_add convert_all convert_pairs array_fill zero_of.
+Local Opaque class_ctor as_type fold_loop ranker rk_default set_add_all set_add convert_all convert_pairs array_fill zero_of parsed_items.
 
 (* the number of scratch locals of the regenerated Set constructor (its locals beyond notation, values, sequence, source, collator) *)
 Definition Kset : nat := (g_locals gen_Set - 5)%nat.
@@ -30,7 +30,11 @@ Proof.
   all: destruct sq as [?l|]; [leaf|].
   all: destruct txt as [|?ch ?t]; [leaf|].
   all: destruct prs as [?pv|]; [|leaf].
-  all: seq_cases2 pv.
-  all: set_loop.
+  (* the parsed collection: a sequence of items, or the assertion to Sequential[any] fails *)
+  all: cbn [plus]; timeout 60 to_loop; timeout 30 rhs_open_keep.
+  all: destruct (parsed_items (PColl pv)) as [items|]; [|timeout 60 fin2].
+  all: timeout 60 to_loop.
+  all: timeout 20 (match goal with |- context [fold_loop ?st ?its ?env] => erewrite (set_add_loop _ _ _ _ _ _ st its (fun x e => eq_refl)); [ | cbn; congruence | cbn; lia | cbn; lia | reflexivity ] end).
+  all: after_loop.
   Unshelve. all: try exact O. all: try exact [].
 Qed.
